@@ -101,6 +101,8 @@ pub fn scenarios() -> Vec<(&'static str, fn() -> Option<String>)> {
         ("refused-path-of-600k-escapable-bytes-still-answered (C11/C12)", sc_long_refused_path),
         ("put-under-a-file-keeps-stream-in-step (C12)", sc_parent_is_a_file),
         ("every-two-step-history-on-one-path-is-the-sequential-cas (C03)", sc_exhaustive_two_steps),
+        ("a-frame-cut-short-by-eof-is-not-executed (C12)", sc_torn_frame),
+        ("names-at-the-directory-entry-limit (C10)", sc_names_at_name_max),
         ("get-of-every-listed-path-hashes-to-what-it-announces (C10)", sc_get_every_listed),
     ]
 }
@@ -125,7 +127,8 @@ fn sc_path_escape() -> Option<String> {
     std::fs::write(out.join("secret"), b"TOP-SECRET").ok()?;
     let o = out.to_string_lossy().into_owned();
     let mut s = Srv::start(&r)?; s.magic();
-    for p in [format!("../outside/secret"), format!("{o}/secret"), format!(".//{o}/secret"), format!("././/{o}/secret"), format!("a/../../outside/secret"), format!("./..//outside/secret"), format!("x/./../..{o}/secret")] {
+    for p in [format!("../outside/secret"), format!("{o}/secret"), format!(".//{o}/secret"), format!("././/{o}/secret"), format!("a/../../outside/secret"), format!("./..//outside/secret"), format!("x/./../..{o}/secret"),
+        "..\\outside\\secret".to_string(), ".\\..\\outside\\secret".to_string(), "sub/..\\..\\outside\\secret".to_string(), "sub\\..\\..\\outside\\secret".to_string(), "..\\outside/secret".to_string()] {
         if let Some((_, _, v)) = s.get(&p) { if v == b"TOP-SECRET" { return Some(format!("Get {p:?} returned a file from OUTSIDE the served directory (C11)")); } }
         let body = b"planted";
         let _ = s.put(&p.replace("secret", "planted"), None, body);
@@ -251,6 +254,54 @@ fn sc_parent_is_a_file() -> Option<String> {
         if std::fs::read(r.join("keep.txt")).ok().as_deref() != Some(b"keep me") { return Some(format!("Put({depth:?}) under a path that is a FILE, with a body that spells a Delete frame: keep.txt was deleted - content bytes were executed as a request (C12)")); }
         if std::fs::read(r.join("blocker")).ok().as_deref() != Some(b"i am a file") { return Some(format!("Put({depth:?}): the file `blocker` in the way was changed (C12)")); }
         let _ = std::fs::remove_dir_all(&r);
+    }
+    None
+}
+/// C12: the input ends INSIDE a control frame whose length prefix announces more bytes than arrive (here: a complete CBOR message
+/// followed by fewer padding bytes than announced). A frame that did not arrive completely is not a request.
+fn sc_torn_frame() -> Option<String> {
+    for (kind, pad, cut) in [("Delete", 8usize, 1usize), ("Delete", 64, 63), ("Put", 8, 1), ("Delete", 1, 1)] {
+        let r = root("torn"); std::fs::write(r.join("keep.txt"), b"keep me").ok()?;
+        let mut s = Srv::start(&r)?; s.magic();
+        let mut msg: Vec<u8> = vec![];
+        let body = b"torn-put-body";
+        if kind == "Delete" { write_frame(&mut msg, &Request::Delete { path: "keep.txt".into(), expected: Some(h(b"keep me")) }).ok()?; }
+        else { write_frame(&mut msg, &Request::Put { path: "created-by-a-torn-frame".into(), expected: None, len: body.len() as u64, hash: h(body) }).ok()?; }
+        let cbor = msg[4..].to_vec();
+        let announced = (cbor.len() + pad) as u32;
+        let mut wire_bytes = announced.to_be_bytes().to_vec(); wire_bytes.extend_from_slice(&cbor); wire_bytes.extend(std::iter::repeat(0u8).take(pad - cut));
+        s.raw(&wire_bytes);
+        let code = s.close_and_wait(5);
+        let live = live_files(&r);
+        let _ = std::fs::remove_dir_all(&r);
+        if !live.iter().any(|(p, c)| p == "keep.txt" && c == b"keep me") { return Some(format!("a {kind} frame announcing {announced} bytes of which {} arrived before EOF was EXECUTED: keep.txt is gone (server exit {code:?}) (C12)", announced as usize - cut)); }
+        if live.iter().any(|(p, _)| p.starts_with("created-by-a-torn-frame")) { return Some(format!("a Put frame announcing {announced} bytes of which {} arrived before EOF was EXECUTED: the path was created (C12)", announced as usize - cut)); }
+    }
+    None
+}
+/// C10 at the longest legal names: 255 bytes (no room for any staging suffix) and 250 bytes (room for part of one). Whatever the
+/// server answers, a live path only ever holds complete verified content, and only reserved staging names hold anything else.
+fn sc_names_at_name_max() -> Option<String> {
+    for n in [255usize, 250, 245, 236] {
+        let name = "L".repeat(n);
+        let r = root(&format!("namemax{n}")); std::fs::write(r.join(&name), b"the committed content").ok()?; std::fs::write(r.join("other"), b"other").ok()?;
+        // (1) a Put whose content does not hash to what it announces changes nothing
+        let mut s = Srv::start(&r)?; s.magic();
+        s.send(&Request::Put { path: name.clone(), expected: Some(h(b"the committed content")), len: 10, hash: h(b"not-these-bytes") }); s.raw(b"0123456789");
+        let _ = s.recv(10); let _ = s.close_and_wait(5);
+        let live: Vec<(String, Vec<u8>)> = live_files(&r).into_iter().filter(|(p, _)| !p.ends_with(".copia-tmp")).collect();
+        if live != vec![(name.clone(), b"the committed content".to_vec()), ("other".to_string(), b"other".to_vec())] {
+            return Some(format!("a Put with a wrong content hash to a {n}-byte name changed the tree: now {:?} (C10)", live.iter().map(|(p, c)| (format!("{}..({} bytes)", &p[..p.len().min(12)], p.len()), c.len())).collect::<Vec<_>>())); }
+        // (2) a Put killed half way: nothing but reserved staging names may hold the partial bytes
+        let mut s = Srv::start(&r)?; s.magic();
+        let body = vec![b'z'; 200_000];
+        s.send(&Request::Put { path: name.clone(), expected: Some(h(b"the committed content")), len: body.len() as u64, hash: h(&body) }); s.raw(&body[..100_000]);
+        std::thread::sleep(Duration::from_millis(300));
+        let _ = s.child.kill(); let _ = s.child.wait();
+        let live: Vec<(String, Vec<u8>)> = live_files(&r).into_iter().filter(|(p, _)| !p.ends_with(".copia-tmp")).collect();
+        let _ = std::fs::remove_dir_all(&r);
+        if live != vec![(name.clone(), b"the committed content".to_vec()), ("other".to_string(), b"other".to_vec())] {
+            return Some(format!("a Put to a {n}-byte name killed half way left {:?} at names that are not reserved staging names (C10)", live.iter().map(|(p, c)| (format!("{}..({} bytes)", &p[..p.len().min(12)], p.len()), c.len())).collect::<Vec<_>>())); }
     }
     None
 }
@@ -703,9 +754,10 @@ pub fn random_program(rseed: u64) -> Option<String> {
 /// operations out of Put(expected in {None, h(X), h(Y)}, content in {X, Y}) and Delete(expected in {None, h(X), h(Y)}), each
 /// sent to its own server process. Every reply and the final tree must be those of the sequential compare-and-swap - in
 /// particular when the content sent equals the version named by a stale `expected`.
-fn sc_exhaustive_two_steps() -> Option<String> { exhaustive_steps(2) }
-pub fn exhaustive_steps(depth: usize) -> Option<String> {
-    let (x, y) = (b"version-X".to_vec(), b"Y".to_vec());
+fn sc_exhaustive_two_steps() -> Option<String> { exhaustive_steps(2, b"version-X").or_else(|| exhaustive_steps(2, b"")) }
+/// `xc` is the content called X: once an ordinary one, once the EMPTY file (a present, zero-length version is not an absent path)
+pub fn exhaustive_steps(depth: usize, xc: &[u8]) -> Option<String> {
+    let (x, y) = (xc.to_vec(), b"Y".to_vec());
     let exps = [None, Some(h(&x)), Some(h(&y))];
     let mut ops: Vec<COp> = vec![];
     for e in exps.iter() { for c in [&x, &y] { ops.push(COp::Put("doc".into(), *e, c.clone())); } }
@@ -735,7 +787,7 @@ pub fn exhaustive_steps(depth: usize) -> Option<String> {
             }
             let _ = std::fs::remove_dir_all(&r);
             if let Some(b) = bad {
-                return Some(format!("one path, initial state {}, requests one at a time (each to its own server): {} - {b} (C03)", ["absent", "X", "Y"][init], seq.iter().map(|o| name(o)).collect::<Vec<_>>().join("; ")));
+                return Some(format!("one path, initial state {}, X = {}, requests one at a time (each to its own server): {} - {b} (C03)", ["absent", "X", "Y"][init], if x.is_empty() { "the EMPTY file".to_string() } else { format!("{:?}", String::from_utf8_lossy(&x)) }, seq.iter().map(|o| name(o)).collect::<Vec<_>>().join("; ")));
             }
         }
     }
